@@ -80,7 +80,27 @@ pub fn run(tier: &str, seed: u64, report: &mut Report) {
         let last_tree = steps.iter().rev().find_map(|s| if let Step::SetTree(t) = s { Some(t.clone()) } else { None }).unwrap();
         let mut clock = 1_700_000_000_000_000_000;
         steps.push(Step::SetTree(mutate_tree(&mut rng, &last_tree, &go, &mut clock)));
-        let params = BackupParamsLite { hunk: *rng.pick(&[1usize, 2, 3, 1000]), block: *rng.pick(&[3usize, 4, 8, 16]), cap: *rng.pick(&[4u64, 8, 64]) };
+        let mut params = BackupParamsLite { hunk: *rng.pick(&[1usize, 2, 3, 1000]), block: *rng.pick(&[3usize, 4, 8, 16]), cap: *rng.pick(&[4u64, 8, 64]) };
+        if sidx == 0 {
+            // directed scenario (always run): the same content is stored AGAIN after the write that may be
+            // faulted — a combined block whose flush is retried at the end of the run, and identical files
+            // too large to combine — so that "a failed write is later taken for a stored block" shows up.
+            let mut t = Tree::default();
+            let mk = |comps: Vec<&str>, kind: NodeKind, m: i64| Node { comps: comps.iter().map(|s| s.to_string()).collect(), kind, mode: if comps.is_empty() { 0o755 } else { 0o644 }, mtime_ns: 1_600_000_000_000_000_000 + m, uid: 0, gid: 0 };
+            t.nodes.insert("/".into(), mk(vec![], NodeKind::Dir, 0));
+            let n_small = 3 + rng.below(3);
+            for i in 0..n_small {
+                let name = format!("s{i}");
+                let body: Vec<u8> = (0..4).map(|j| b'a' + (i * 4 + j) as u8).collect();
+                t.nodes.insert(format!("/{name}"), mk(vec![&name], NodeKind::File(body), i as i64 + 1));
+            }
+            let big: Vec<u8> = (0..(9 + rng.below(12))).map(|j| b'A' + (j % 26) as u8).collect();
+            for name in ["w1", "w2", "w3"] {
+                t.nodes.insert(format!("/{name}"), mk(vec![name], NodeKind::File(big.clone()), 50));
+            }
+            steps = vec![Step::SetTree(t)];
+            params = BackupParamsLite { hunk: 1000, block: 8, cap: 6 };
+        }
         let case_id = json!({"case_seed": case_seed, "prefix": history_json(&steps), "final_backup": params.json()});
         let sc = build_scenario(&steps, report, &case_id, "fault-prefix");
         let p = params.params();
